@@ -11,6 +11,7 @@ import (
 	"encoding/json"
 	"fmt"
 	"io"
+	"log/slog"
 	"net/http"
 	"os"
 	"path/filepath"
@@ -569,6 +570,138 @@ func attemptsAndBackoff() {
 	}
 }
 
+// retryAfterAcrossSuccess: a server-requested delay must survive the completion of a request that was
+// already being answered when the 429 was sent. Sequence (all ordering by observed events, no sleeps):
+// A = blob GET, headers and half the body sent, then held; B = manifest HEAD answered 429 Retry-After: 1
+// at server instant T; the client logs "Sleeping for backoff" for B (so it has recorded the deadline);
+// A is released and returns; only then C (a new request) is started. C must not arrive before T+1s.
+func retryAfterAcrossSuccess() {
+	for rep := 0; rep < ev.Scale(2, 6); rep++ {
+		e := newEnv(1, 0, true)
+		layer := firstLayer(e)
+		img := someImage(e)
+		var mu sync.Mutex
+		var tReply, tC time.Time
+		holdA, aStarted := make(chan struct{}), make(chan struct{})
+		nHead := 0
+		e.up.Intercept = func(evn *modelreg.Event, w http.ResponseWriter, r *http.Request) bool {
+			switch {
+			case evn.Kind == "blob" && evn.Method == "GET":
+				w.Header().Set("Content-Length", fmt.Sprint(len(layer.Content)))
+				w.Header().Set("Content-Type", "application/octet-stream")
+				w.Header().Set("Docker-Content-Digest", layer.Digest)
+				w.WriteHeader(200)
+				_, _ = w.Write(layer.Content[:len(layer.Content)/2])
+				if f, ok := w.(http.Flusher); ok {
+					f.Flush()
+				}
+				close(aStarted)
+				<-holdA
+				_, _ = w.Write(layer.Content[len(layer.Content)/2:])
+				return true
+			case evn.Kind == "manifest" && evn.Method == "HEAD":
+				mu.Lock()
+				nHead++
+				k := nHead
+				if k == 1 {
+					tReply = time.Now()
+				}
+				mu.Unlock()
+				if k == 1 {
+					w.Header().Set("Retry-After", "1")
+					w.WriteHeader(429)
+					return true
+				}
+			case evn.Kind == "tags":
+				mu.Lock()
+				if tC.IsZero() {
+					tC = time.Now()
+				}
+				mu.Unlock()
+			}
+			return false
+		}
+		sleeping := make(chan struct{}, 8)
+		lg := slog.New(&notifyHandler{match: "Sleeping for backoff", ch: sleeping})
+		rc := rcx.New([]*modelreg.Host{e.up}, rcx.Opts{RetryLimit: 3, Extra: []regclient.Opt{regclient.WithSlog(lg)}})
+		ctx, cancel := context.WithTimeout(context.Background(), 30*time.Second)
+		aDone, bDone := make(chan error, 1), make(chan error, 1)
+		go func() {
+			rd, err := rc.BlobGet(ctx, rcx.Ref(e.up, e.repo, "v1"), descriptor.Descriptor{Digest: digest.Digest(layer.Digest)})
+			if err == nil {
+				_, err = io.Copy(io.Discard, rd)
+				_ = rd.Close()
+			}
+			aDone <- err
+		}()
+		ok := true
+		select {
+		case <-aStarted:
+		case <-ctx.Done():
+			ok = false
+		}
+		if ok {
+			go func() {
+				_, err := rc.ManifestHead(ctx, rcx.Ref(e.up, e.repo, img.Digest))
+				bDone <- err
+			}()
+			select {
+			case <-sleeping:
+			case <-ctx.Done():
+				ok = false
+			}
+		}
+		close(holdA)
+		if ok {
+			select {
+			case <-aDone:
+			case <-ctx.Done():
+				ok = false
+			}
+		}
+		run.Eval(1)
+		if !ok {
+			run.Inconclusive("retry-after interleaving was not reached (no back-off sleep observed at the client)")
+		} else {
+			_, errC := rc.TagList(ctx, rcx.Ref(e.up, e.repo, "v1"))
+			<-bDone
+			mu.Lock()
+			gap := tC.Sub(tReply)
+			mu.Unlock()
+			run.Count("retry_after_interleavings", 1)
+			if errC != nil || tC.IsZero() {
+				run.Inconclusive(fmt.Sprintf("request after the interleaving failed: %v", errC))
+			} else if gap < time.Second {
+				run.Violation("retry-after-dropped-by-concurrent-success", fmt.Sprintf("server answered 429 Retry-After: 1; after an older download finished a new request arrived only %v after that reply", gap),
+					map[string]any{"sequence": "A=blob GET held mid-body; B=manifest HEAD -> 429 Retry-After: 1; client sleeping for B; A released and returned; C=tag list started", "gap": gap.String(), "requests": reqList(e.w)})
+			} else {
+				run.Count("retry_after_kept_across_success", 1)
+			}
+		}
+		cancel()
+		e.w.Close()
+	}
+}
+
+// notifyHandler is a slog handler that signals when a record with the given message is logged.
+type notifyHandler struct {
+	match string
+	ch    chan struct{}
+}
+
+func (h *notifyHandler) Enabled(context.Context, slog.Level) bool { return true }
+func (h *notifyHandler) Handle(_ context.Context, r slog.Record) error {
+	if r.Message == h.match {
+		select {
+		case h.ch <- struct{}{}:
+		default:
+		}
+	}
+	return nil
+}
+func (h *notifyHandler) WithAttrs([]slog.Attr) slog.Handler { return h }
+func (h *notifyHandler) WithGroup(string) slog.Handler      { return h }
+
 // ---- (d) mirrors ----------------------------------------------------------------------------------
 
 func mirrors() {
@@ -676,6 +809,27 @@ func mirrors() {
 
 // ---- (e) hostile servers: bounded progress ----------------------------------------------------------
 
+// linkCycle makes every listing reply of the given kind carry a Link to the next of k pages, the
+// last one pointing back to the first.
+func linkCycle(e *env, kind string, k int) {
+	e.up.Intercept = func(evn *modelreg.Event, w http.ResponseWriter, r *http.Request) bool {
+		if evn.Kind != kind {
+			return false
+		}
+		cur := 0
+		fmt.Sscanf(r.URL.Query().Get("page"), "%d", &cur)
+		w.Header().Set("Link", fmt.Sprintf("<%s?n=1&page=%d>; rel=\"next\"", r.URL.Path, (cur+1)%k))
+		if kind == "tags" {
+			w.Header().Set("Content-Type", "application/json")
+			_, _ = w.Write([]byte(`{"name":"proj/app","tags":["a1"]}`))
+		} else {
+			w.Header().Set("Content-Type", la.MTOCIIndex)
+			_, _ = w.Write([]byte(`{"schemaVersion":2,"mediaType":"application/vnd.oci.image.index.v1+json","manifests":[]}`))
+		}
+		return true
+	}
+}
+
 func hostile() {
 	const cap = 300
 	type hcase struct {
@@ -752,6 +906,9 @@ func hostile() {
 				return true
 			}
 		}},
+		{"referrers-link-two-cycle", "referrer-list", func(e *env) { linkCycle(e, "referrers", 2) }},
+		{"referrers-link-three-cycle", "referrer-list", func(e *env) { linkCycle(e, "referrers", 3) }},
+		{"tag-list-link-three-cycle", "tag-list", func(e *env) { linkCycle(e, "tags", 3) }},
 		{"redirect-loop", "blob-get", func(e *env) {
 			e.up.Intercept = func(evn *modelreg.Event, w http.ResponseWriter, r *http.Request) bool {
 				if evn.Kind != "blob" {
@@ -838,14 +995,15 @@ func hostile() {
 
 func main() {
 	run = ev.Start("C12", "fault_enumeration")
-	run.Rule("(a) every single-request operation against hosts that always answer one of 9 status/connection faults, retry limits {1,2,3,5}: attempts counted at the server; (b) back-off lower bounds from server-side instants for delays 20/40 ms and a Retry-After: 1 reply; " +
+	run.Rule("(a) every single-request operation against hosts that always answer one of 9 status/connection faults, retry limits {1,2,3,5}: attempts counted at the server; (b) back-off lower bounds from server-side instants for delays 20/40 ms and a Retry-After: 1 reply, also across the completion of an older download of the same host (interleaving driven by observed events); " +
 		"(c) for 16 operations x referrers API on/off: every request position of the fault-free run x 7 retryable faults x 1..limit-1 consecutive repetitions, result and raw end state compared with the fault-free run; " +
 		"(d) mirror sets of 1-3 hosts with random priorities where each host has / lacks / fails the content: order of first contacts, fallback, and no state-changing request at a mirror for every mutating operation; " +
-		"(e) hostile servers that never make progress (upload acknowledgements, pagination cycles, redirect loops, endless challenges, endless truncation): request-count cap; non-trivial = a fault fired; distinct = (operation, fault, request kind) classes")
+		"(e) hostile servers that never make progress (upload acknowledgements, pagination cycles of length 1-3, redirect loops, endless challenges, endless truncation): request-count cap; non-trivial = a fault fired; distinct = (operation, fault, request kind) classes")
 	run.Assume("retryable = what the client documents as such (429, 408, 500, 502, 504, connection errors, truncated bodies); 503 and other 5xx are 'drop this host' by design and only used for attempt bounds",
 		"timing clauses are lower bounds measured at the server: the reply instant of the failure is earlier and the arrival of the retry later than at the client, so load can only help them",
 		"bounded progress: an operation exceeding 300 requests against a server that never makes progress is a violation; the 4 s context is only a safety net")
 	attemptsAndBackoff()
+	retryAfterAcrossSuccess()
 	absorb()
 	mirrors()
 	hostile()
